@@ -1,7 +1,8 @@
 (* Extraction of the actix-tls models (ExtrOcamlBasic only; numbers stay positive/Z/N/nat). *)
 From Coq Require Import Extraction ExtrOcamlBasic.
-From AN Require Import Model.Connect.
+From AN Require Import Model.Connect Model.TlsAccept.
 Extraction Language OCaml.
 Extraction "../ocaml/tls/gen.ml"
   hostname port parse_u16 build ci_hostname ci_get_port ci_addrs ci_take_addrs
-  resolve tcp_connect connect tls_connect connect_tls.
+  resolve tcp_connect connect tls_connect connect_tls
+  init step run run_from.
